@@ -214,7 +214,8 @@ pub fn execute(spec: &'static CheckSpec, scenario: &'static Scenario, tier: Tier
             let panic_msg = take_panic();
             if let Some(m) = panic_msg {
                 // a panic anywhere on the run thread (SUT task or harness) is a violation
-                let harness = m.contains("/verif/sim/");
+                // harness code reports relative paths (src/...), the SUT /repo/src/..., dependencies the cargo registry
+                let harness = m.contains("/verif/sim/") || m.contains("@ src/");
                 ctx.fail(if harness { "harness-panic" } else { "sut-panic" }, m, &["panic"]);
             } else if r.is_err() {
                 ctx.fail("sut-panic", "panic without message", &["panic"]);
